@@ -28,10 +28,10 @@ def gen_1d(rng, S, spline):
     trailing = gen.trailing_shape(rng, 2)
     shape = [n] + trailing
     if S == "Q":
-        xs = gen.axis_q(rng, n, rng.choice(["unit", "uniform", "geometric", "random", "dyadic", "mesh64", "evenish"]))
+        xs = gen.axis_q(rng, n, rng.choice(["unit", "uniform", "geometric", "random", "dyadic", "mesh64", "evenish", "nearly_even", "indexlike"]))
         flat = gen.vals_q(rng, gen.shape_size(shape), rng.choice(["int", "dyadic", "rational"]))
     else:
-        xs = gen.axis_f(rng, n, rng.choice(["unit", "uniform", "geometric", "random", "evenish", "even"]))
+        xs = gen.axis_f(rng, n, rng.choice(["unit", "uniform", "geometric", "random", "evenish", "even", "nearly_even", "indexlike"]))
         flat = [rng.uniform(-5, 5) for _ in range(gen.shape_size(shape))]
     return shape, xs, flat
 
@@ -61,14 +61,21 @@ def generate(rng, tier):
         shape, xs, flat = gen_1d(rng, S, kind == "spl")
         L = gen.lanes_of(shape)
         strat = ("lin", True) if kind == "lin" else spline_strat(rng, S, True, L, shape[1:])
+        # the builders' default index axis (no `.x()` call): 0, 1, .., n-1 (seed C06-r6m1: an O(1) lookup on the default axis whose
+        # usize cast fails for finite queries >= 2^64 and then falls back to the *first* interval)
+        defx = rng.random() < 0.25
+        if defx:
+            xs = [Fr(i) for i in range(shape[0])] if S == "Q" else [float(i) for i in range(shape[0])]
         if S == "Q":
             qs = gen.queries_q(rng, xs, rng.randint(4, 10), ext=True)
+            qs += [xs[-1] + Fr(2) ** rng.choice([53, 63, 64, 65, 100]), xs[0] - Fr(2) ** rng.choice([63, 64, 70])]
         else:
             span = xs[-1] - xs[0]
             qs = [xs[0] - span * k for k in (1e-9, 0.5, 3.0, 50.0)] + [xs[-1] + span * k for k in (1e-9, 0.5, 3.0, 50.0)]
             qs += [vlib.next_down(xs[0]), vlib.next_up(xs[-1]), xs[0], xs[-1], 1.0e300, -1.0e300]
+            qs += [2.0 ** 63, 2.0 ** 64, 1.9e19, -(2.0 ** 64), 3.0e19, 2.0 ** 53 + 2.0, 4.0e9, 1.0e25]
         dtag, qtag = gen.pick_dims(rng, len(shape), 1)
-        line = i1_line(S, xs, shape, flat, strat, e_array(S, [len(qs)], qs, qtag=qtag, lay=rng.choice(gen.LAYS_ND)),
+        line = i1_line(S, None if defx else xs, shape, flat, strat, e_array(S, [len(qs)], qs, qtag=qtag, lay=rng.choice(gen.LAYS_ND)),
                        dtag=dtag, dlay=rng.choice(gen.LAYS_ND))
         cases.append({"line": line, "meta": {"kind": kind, "xs": xs, "shape": shape, "flat": flat, "qs": qs, "strat": strat}})
     return cases
@@ -85,6 +92,22 @@ def oracle(case, res):
     m = case["meta"]
     if res.kind != "ok":
         return f"with extrapolation no finite query may be rejected, got {res.raw[:80]}"
+    if case["line"].startswith("F ") and m["kind"] == "lin":
+        # f64 Linear: the continuation of the end line within rounding (4 operations: relative to |slope * offset| + |y|)
+        xs = [Fr(v) for v in m["xs"]]
+        rows = gen.rows_of(m["shape"], [Fr(v) for v in m["flat"]])
+        got = res.floats()
+        L = max(1, gen.lanes_of(m["shape"]))
+        for qi, q in enumerate(m["qs"]):
+            i, exact = gen.exact_linear(xs, rows, Fr(q))
+            for lane, e in enumerate(exact):
+                g = got[qi * L + lane]
+                scale = abs(e - rows[i][lane]) + abs(rows[i][lane])
+                if scale > Fr(10) ** 290:
+                    continue            # the true value is near / beyond the largest finite f64
+                if not math.isfinite(g) or abs(Fr(g) - e) > Fr(1, 10 ** 9) * scale:
+                    return f"value #{qi * L + lane} at q={q}: f64 {g} must continue the end line, exact {float(e)}"
+        return None
     if not case["line"].startswith("Q "):
         return None
     if m["kind"] == "bil":
